@@ -249,17 +249,24 @@ Proof. induction l as [|it l IH]; intros n b fs f H Hf; cbn [info_in] in H; [dis
 Lemma type_names_len : forall l, List.length (flat_map (fun it => match it with RStruct n _ _ _ | REnum n _ => [n] | _ => [] end) l) <= List.length l.
 Proof. induction l as [|it l IH]; [auto|]. cbn [flat_map]. rewrite app_length. destruct it; simpl; lia. Qed.
 
-Lemma sym_lookup_some : forall k ps acc v, sym_lookup k ps acc = Some v -> acc = Some v \/ exists t, In (k, t) ps /\ v = type_name t.
-Proof. induction ps as [|[n t] r IH]; intros acc v H; cbn [sym_lookup] in H; [left; exact H|]. destruct (IH _ _ H) as [E|[t' [Hin Ev]]].
-  - destruct (str_eqb k n) eqn:Ek; [|left; exact E]. apply str_eqb_eq in Ek. subst. inversion E; subst. right. exists t. split; [left; reflexivity|reflexivity].
-  - right. exists t'. split; [right; exact Hin|exact Ev]. Qed.
-Lemma sym_lookup_found_gen : forall k ps acc, acc <> None \/ In k (map fst ps) -> exists v, sym_lookup k ps acc = Some v.
-Proof. induction ps as [|[n t] r IH]; intros acc H; cbn [sym_lookup].
-  - destruct H as [H|[]]. destruct acc as [v|]; [exists v; reflexivity|congruence].
-  - apply IH. cbn [map fst In] in H. destruct (str_eqb k n) eqn:E; [left; discriminate|].
-    destruct H as [H|[H|H]]; [left; exact H| |right; exact H]. subst. rewrite str_eqb_refl in E. discriminate. Qed.
-Lemma sym_lookup_found : forall k ps, In k (map fst ps) -> exists v, sym_lookup k ps None = Some v.
-Proof. intros. apply sym_lookup_found_gen. right. assumption. Qed.
+(* what a record of the walk over a function body says *)
+Definition shape (r : emit_rec) : Prop :=
+  match er_prov r with
+  | Some pr => er_str r = prov_str pr
+  | None => match er_pl r with
+            | PVar _ => True | PStruct _ => False
+            | PUnit => er_str r = S_ "()" | PStr => er_str r = S_ "String" | PInt => er_str r = S_ "i32" | PBool => er_str r = S_ "bool"
+            | POther => er_str r = S_ "unknown" end
+  end.
+Lemma emit_record_shape : forall sy e, shape (emit_record sy e).
+Proof. intros sy e. unfold emit_record, shape. destruct (em_payload e) as [n| | | | |n|] eqn:E; cbn [er_prov er_str er_pl]; try reflexivity.
+  destruct (sy_lookup n sy); cbn [er_prov er_str er_pl]; [reflexivity|exact Logic.I]. Qed.
+Lemma walk_shape : forall b sy r, In r (walk sy b) -> shape r.
+Proof. induction b as [|st b IH]; intros sy r H; cbn [walk] in H; [destruct H|]. destruct st as [v i|v t|e].
+  - eapply IH. exact H.
+  - eapply IH. exact H.
+  - apply in_app_or in H. destruct H as [H|H]; [|eapply IH; exact H]. destruct (recv_ok (em_recv e)); [|destruct H].
+    destruct H as [<-|[]]. apply emit_record_shape. Qed.
 
 (* ---------------- the closed world gives the side condition ---------------- *)
 Section World.
@@ -391,11 +398,9 @@ Section World.
     apply (HP.harvest_names (S (List.length (tts (RPath s [])))) (RPath s [])); [pose proof (TT.Proofs.C07Agree.height_le_len _ Hw); lia|exact Hw|exact Logic.I|].
     cbn [names]. rewrite Hc. left. reflexivity. Qed.
 
-  Lemma events_emits : forall e, In e (events p) -> exists ps em, In (ps, em) (emits_of p) /\ e = (em_name em, payload_str ps (em_payload em)).
-  Proof. intros e H. unfold events in H. apply in_flat_map in H. destruct H as [it [Hit He]]. destruct it as [| |nm cm ps r es|]; try destruct He.
-    apply in_flat_map in He. destruct He as [em [Hem He]]. destruct (recv_ok (em_recv em)) eqn:Er; [|destruct He]. destruct He as [<-|[]].
-    exists ps, em. split; [|reflexivity]. unfold emits_of. apply in_flat_map. exists (RFn nm cm ps r es). split; [exact Hit|].
-    apply in_map_iff. exists em. split; [reflexivity|]. apply filter_In. auto. Qed.
+  Lemma events_recs : forall e, In e (events p) -> exists r, In r (emit_recs p) /\ shape r /\ e = (er_name r, er_str r).
+  Proof. intros e H. unfold events in H. apply in_map_iff in H. destruct H as [r [<- Hr]]. exists r. split; [exact Hr|]. split; [|reflexivity].
+    unfold emit_recs in Hr. apply in_flat_map in Hr. destruct Hr as [it [_ Hr]]. destruct it; try destruct Hr. eapply walk_shape. exact Hr. Qed.
 
   (* a payload string that is a name of the closed world *)
   Lemma name_payload : forall e s, In e (events p) -> snd e = s -> ident_b s = true ->
@@ -426,34 +431,34 @@ Section World.
 
   Lemma event_declared : forall t n, In t (event_site_ts p) -> In n (customs m t) -> In n prims8 \/ In n (used p).
   Proof. intros t n Ht Hn. unfold event_site_ts in Ht. apply in_map_iff in Ht. destruct Ht as [e [<- He]].
-    destruct (events_emits e He) as [ps [em [Hem Ee]]]. assert (snd e = payload_str ps (em_payload em)) as Es by (rewrite Ee; reflexivity).
-    rewrite Es in Hn. destruct (em_payload em) as [v| | | | |s|] eqn:Epl; cbn [payload_str] in Hn, Es.
-    - (* a variable: the declared type of the parameter *)
-      assert (In v (map fst ps)) as Hv.
-      { unfold wf in Hwf. rewrite !andb_true_iff in Hwf. destruct Hwf as [_ H]. rewrite forallb_forall in H. specialize (H (ps, em) Hem).
-        cbn [fst snd] in H. rewrite Epl in H. apply mem_In. exact H. }
-      destruct (sym_lookup_found v ps Hv) as [w Hw]. rewrite Hw in Hn, Es. destruct (sym_lookup_some _ _ _ _ Hw) as [Hc|[t [Hin Ew]]]; [discriminate|]. rewrite Ew in Hn, Es.
-      assert (In t (payload_qty ps (PVar v))) as Hpq.
-      { cbn [payload_qty]. apply in_flat_map. exists (v, t). split; [exact Hin|]. cbn [fst snd]. rewrite str_eqb_refl. left. reflexivity. }
+    destruct (events_recs e He) as [r [Hr [Hsh Ee]]]. assert (snd e = er_str r) as Es by (rewrite Ee; reflexivity).
+    rewrite Es in Hn. unfold shape in Hsh. destruct (er_prov r) as [[t|s]|] eqn:Epr.
+    - (* the entry comes from a declared type: parameter or typed let *)
+      cbn [prov_str] in Hsh. rewrite Hsh in Hn, Es.
       assert (In t (site_qtys p)) as Hq.
-      { unfold site_qtys. apply in_or_app. right. apply in_or_app. right. apply in_flat_map. exists (ps, em). split; [exact Hem|]. cbn [fst snd]. rewrite Epl. exact Hpq. }
+      { unfold site_qtys. apply in_or_app. right. apply in_or_app. right. apply in_flat_map. exists r. split; [exact Hr|]. rewrite Epr. left. reflexivity. }
       assert (generic_head t = false) as Hgh.
       { unfold kf_event_head in Hhead. destruct (generic_head t) eqn:E; [|reflexivity]. exfalso.
-        assert (existsb (fun x => existsb generic_head (payload_qty (fst x) (em_payload (snd x)))) (emits_of p) = true) as Hc.
-        { apply existsb_exists. exists (ps, em). split; [exact Hem|]. cbn [fst snd]. rewrite Epl. apply existsb_exists. exists t. auto. }
+        assert (existsb (fun r => match er_prov r with Some (FromTy t) => generic_head t | _ => false end) (emit_recs p) = true) as Hc.
+        { apply existsb_exists. exists r. split; [exact Hr|]. rewrite Epr. exact E. }
         rewrite Hc in Hhead. discriminate. }
       destruct (type_name_cases t (dom_q t Hq) Hgh) as [Eu|[Hi Hqn]].
       + rewrite Eu in Hn. left. apply unknown_customs. exact Hn.
       + right. apply (name_payload e (type_name t)); auto. intros Ep. apply cw. apply in_or_app. left. apply in_flat_map. exists t. auto.
-    - change (pts (S_ "()")) with (TPrim (L "void")) in Hn. destruct Hn.
-    - change (pts (S_ "String")) with (TPrim (L "string")) in Hn. destruct Hn.
-    - change (pts (S_ "i32")) with (TPrim (L "number")) in Hn. destruct Hn.
-    - change (pts (S_ "bool")) with (TPrim (L "boolean")) in Hn. destruct Hn.
-    - (* a struct literal *)
+    - (* the entry is a name taken from a struct literal or a path call *)
+      cbn [prov_str] in Hsh. rewrite Hsh in Hn, Es.
       assert (In s (payload_names p)) as Hs.
-      { unfold payload_names. apply in_flat_map. exists (ps, em). split; [exact Hem|]. cbn [snd]. rewrite Epl. left. reflexivity. }
+      { unfold payload_names. apply in_flat_map. exists r. split; [exact Hr|]. rewrite Epr. left. reflexivity. }
       right. apply (name_payload e s); auto; [apply dom_pl; exact Hs|]. intros _. apply cw. apply in_or_app. right. exact Hs.
-    - left. apply unknown_customs. exact Hn. Qed.
+    - (* no entry *)
+      assert (match er_pl r with PVar _ => False | POther => False | _ => True end) as Hwfr.
+      { unfold wf in Hwf. rewrite !andb_true_iff in Hwf. destruct Hwf as [_ H]. rewrite forallb_forall in H. specialize (H r Hr).
+        rewrite Epr in H. destruct (er_pl r); try exact Logic.I; discriminate. }
+      destruct (er_pl r) eqn:Epl; [destruct Hwfr| | | | |destruct Hsh|destruct Hwfr]; rewrite Hsh in Hn.
+      + change (pts (S_ "()")) with (TPrim (L "void")) in Hn. destruct Hn.
+      + change (pts (S_ "String")) with (TPrim (L "string")) in Hn. destruct Hn.
+      + change (pts (S_ "i32")) with (TPrim (L "number")) in Hn. destruct Hn.
+      + change (pts (S_ "bool")) with (TPrim (L "boolean")) in Hn. destruct Hn. Qed.
 
   Theorem world_refs_declared : refs_declared p = true.
   Proof. unfold refs_declared. apply andb_true_iff. split; apply forallb_forall; intros t Ht; apply forallb_forall; intros n Hn.
